@@ -877,11 +877,9 @@ fn convert_rpx_in_block(
     ss: &mut StyleSheetTransformer,
     convert_options: Option<ConvertOptions>,
 ) {
-    let mut skip_whitespace = true;
     let mut in_calc = false;
     if let Some(options) = convert_options {
         if options.in_calc {
-            skip_whitespace = false;
             in_calc = true;
         }
     }
@@ -890,11 +888,7 @@ fn convert_rpx_in_block(
             let input = &mut StepParser::wrap(nested_input);
             let mut prev_token: Option<StepToken> = None;
             loop {
-                let next = if skip_whitespace {
-                    input.next()?
-                } else {
-                    input.next_including_whitespace()?
-                };
+                let next = input.next_including_whitespace()?;
                 match &*next {
                     Token::CurlyBracketBlock
                     | Token::SquareBracketBlock
@@ -928,8 +922,10 @@ fn convert_rpx_in_block(
                     }
                     Token::WhiteSpace(_) => {
                         let mut skip = true;
-                        if in_calc {
-                            // In calc(), the + and - operators must be surrounded by whitespace.
+                        {
+                            // In calc(), the + and - operators must be surrounded by whitespace; a value may also be
+                            // a fragment of a calculation that is substituted into one later (a custom property, a
+                            // `var()` fallback, a function this compiler does not know), so this holds everywhere.
                             // match next token
                             let _ = input.try_parse::<_, (), ()>(|input| {
                                 let next_token =
